@@ -64,6 +64,13 @@ def end_task(task, mode):
         return ('closed',)
     if mode == 'drop':
         return ('dropped', task.drop())
+    if mode == 'throw':
+        # the consumer throws an exception into the suspended generator; it must come back out
+        from .core import Boom
+        r = task.throw(Boom('thrown by the consumer'))
+        if r != 'back':
+            task.close()
+        return ('thrown', r if isinstance(r, str) else '/'.join(r))
     extra = 0
     while task.step():
         extra += 1
